@@ -618,6 +618,10 @@ func genSegCrash(c *ctx, emit func(string)) {
 	for i := 0; i < nfail; i++ {
 		emit(genFailChain(r, c, i))
 	}
+	// the same with 4..7 failed appends in a row (L stale commit frames behind the good one)
+	for i := 0; i < nfail/4; i++ {
+		emit(genFailChainLong(r, c))
+	}
 	// failed SEALING batch (its index frame and sealing commit stay in the file behind the
 	// valid chain), then a batch with a different number of entries that fits and succeeds:
 	// recovery walks over a stale index frame whose length matches nothing before it
@@ -892,6 +896,42 @@ func genFailChain(r *rand.Rand, c *ctx, variant int) string {
 		ops = append(ops, batchOf(r, after, []int{1 + r.Intn(24)}), "L", "R", "L", fmt.Sprintf("G %x", after), "F")
 	}
 	ops = append(ops, "D 0 0")
+	return strings.Join(ops, " ")
+}
+
+// genFailChainLong: like genFailChain but with L = 4..7 appends in a row whose fsync fails, each
+// one frame shorter than the one before and ending on a frame boundary of it, then a still
+// shorter batch that succeeds: behind the commit frame of the acknowledged batch lie L stale
+// commit frames, all on frame boundaries (a recovery that looks back over a bounded number of
+// commit frames only finds stale ones).  Then a restart, reads, one more append, a restart.
+func genFailChainLong(r *rand.Rand, c *ctx) string {
+	limit := []int{8192, 16384}[r.Intn(2)]
+	base := uint64(1 + r.Intn(1000))
+	ops := []string{fmt.Sprintf("seg %x %x 1 %x %x", base, r.Uint64()>>uint(r.Intn(64)), limit, limit)}
+	next := base
+	for b, npre := 0, r.Intn(3); b < npre; b++ {
+		ops = append(ops, batchOf(r, next, []int{1 + r.Intn(40)}))
+		next++
+	}
+	L := 4 + r.Intn(4)
+	k := L + 2 + r.Intn(2)
+	cur := make([]int, k)
+	for i := range cur {
+		cur[i] = 17 + r.Intn(48)
+	}
+	for f := 0; f < L; f++ {
+		ops = append(ops, "E s", batchOf(r, next, cur), "L")
+		cur = append([]int(nil), cur[:len(cur)-1]...)
+		cur[len(cur)-1] -= 8
+	}
+	ops = append(ops, batchOf(r, next, cur), "L", "R", "L", "Q")
+	for idx := base; idx < next+uint64(k)+1; idx++ {
+		ops = append(ops, fmt.Sprintf("G %x", idx))
+	}
+	ops = append(ops, "F")
+	after := next + uint64(len(cur))
+	ops = append(ops, batchOf(r, after, []int{1 + r.Intn(24)}), "L", "R", "L", fmt.Sprintf("G %x", after), "F", "D 0 0")
+	c.stat("failchain_long")
 	return strings.Join(ops, " ")
 }
 
